@@ -610,14 +610,15 @@ Qed.
 
 Definition is_bam (f : fmt) : bool := match f with FBam => true | _ => false end.
 
-Lemma write_lazy vr f x sv : Inv x -> width_ok f (view x) -> (is_bam f = false \/ sv = []) ->
-  write vr f (SLazy x sv) =
-  Some (match sv with [] => concat (map a_rec (view x)) | _ => concat (render_rows vr f (view x) sv) end).
+Lemma write_lazy vr f x sv out : Inv x -> width_ok f (view x) -> (is_bam f = false \/ sv = []) ->
+  write vr f (SLazy x sv) = Some out ->
+  out = match sv with [] => concat (map a_rec (view x)) | _ => concat (render_rows vr f (view x) sv) end.
 Proof.
-  intros I W Hb. destruct sv as [|kc sv]; simpl.
-  - rewrite data_contiguous by auto. reflexivity.
+  intros I W Hb H. destruct sv as [|kc sv]; simpl in H.
+  - inversion H; subst. apply data_contiguous; auto.
   - destruct Hb as [Hb|Hb]; [|discriminate].
-    rewrite <- (lazy_rows_view vr) by auto. destruct f; try reflexivity. discriminate.
+    rewrite <- (lazy_rows_view vr) by auto.
+    destruct f; try discriminate; try (destruct (refused_lazy _ x (kc :: sv)); [discriminate|]); inversion H; reflexivity.
 Qed.
 
 (* ------------------------------------------------------------------ programs *)
@@ -731,13 +732,13 @@ Proof.
   destruct (run_lazy f x0 I0 p s Hf E) as (x & -> & I & V & In0).
   assert (Wx : width_ok f (view x)) by (eapply width_ok_incl; eauto).
   destruct (sv_eval p) as [|kc sv] eqn:Esv.
-  - rewrite write_lazy in H by auto. inversion H; subst. rewrite V. reflexivity.
+  - apply write_lazy in H; auto. subst out. rewrite V. reflexivity.
   - destruct (is_bam f) eqn:Eb.
     + destruct f; try discriminate. simpl in H. destruct (x_es x) eqn:Ee; try discriminate. inversion H; subst.
       assert (Hv : view x = []).
       { pose proof (view_length x (proj1 I)) as L. rewrite Ee in L. destruct (view x); [reflexivity|discriminate]. }
       rewrite <- V, Hv. reflexivity.
-    + rewrite write_lazy in H by auto. inversion H; subst. rewrite V. reflexivity.
+    + apply write_lazy in H; auto. subst out. rewrite V. reflexivity.
 Qed.
 
 Lemma sv_eval_repl_free p : repl_free p = true -> sv_eval p = [].
